@@ -9,11 +9,15 @@ For a scalar function ``phi(t)`` of one real variable (a line through the point 
 
 ``trunc = |R - D(h/2)|`` is the (over-)estimate of the truncation error used as "the
 extrapolation's own error estimate": it is the full error of the *less* accurate of the two
-numbers that were combined. Round-off is estimated separately from a measured noise level
-``delta`` of the function values (see :func:`noise_level`): the worst case effect of value
-errors of size ``delta`` on R is ``(4 * 2 + 1) / 3 * delta / h = 3 delta / h``.
+numbers that were combined. Round-off is estimated separately from a noise level ``delta`` of
+the function values: the worst case effect of value errors of size ``delta`` on R is
+``(4 * 2 + 1) / 3 * delta / h = 3 delta / h``. ``delta`` is the larger of (a) the measured spread
+of the values under tiny perturbations of the argument (:func:`noise_level`) and (b) a quarter of
+the 4th difference of the five values on the stencil, which sees value errors at the scale of
+the stencil (quantisation of a flat function, which tiny perturbations do not reveal).
 
-A derivative estimate is *trustworthy* w.r.t. a tolerance ``tol`` iff ``trunc + noise <= tol``.
+A derivative estimate is *trustworthy* iff ``trunc + noise`` does not exceed the acceptable
+error *and* it lies inside the error bar of every estimate computed before with another step.
 The caller decides what to do with untrustworthy estimates (this framework: inconclusive).
 """
 import math
@@ -26,53 +30,83 @@ import numpy as np
 @dataclass
 class Deriv:
     value: float  # Richardson estimate R
-    trunc: float  # |R - D(h/2)|
+    trunc: float  # |R - D(h/2)| (callers may enlarge it by cross-checks against other step sizes)
     noise: float  # 3 * delta / h
     h: float
-    finite: bool  # all four function values finite
+    finite: bool  # all function values finite
+    d4: float = 0.0  # |4th difference| of the 5 values on the line (0 if the centre value was not given)
+    trusted: bool = False  # set by pick / best_of_ladder
 
     @property
     def err(self) -> float:
         return self.trunc + self.noise
 
 
-def richardson_from_values(fp, fm, fp2, fm2, h: float, delta: float = 0.0) -> Deriv:
-    """Derivative at 0 from phi(h), phi(-h), phi(h/2), phi(-h/2)."""
-    vals = (fp, fm, fp2, fm2)
+def richardson_from_values(fp, fm, fp2, fm2, h: float, delta: float = 0.0, f0: Optional[float] = None) -> Deriv:
+    """Derivative at 0 from phi(h), phi(-h), phi(h/2), phi(-h/2) (and phi(0) for the noise check).
+
+    With the centre value, the 4th difference phi(-h) - 4 phi(-h/2) + 6 phi(0) - 4 phi(h/2) + phi(h)
+    (= (h/2)^4 times the 4th derivative, plus value errors with weights up to 6) measures value
+    errors at the scale of the stencil. ``delta`` is replaced by ``max(delta, d4 / 4)``.
+    Contamination by the 4th derivative only makes the estimate more conservative (it is of higher
+    order than ``trunc``)."""
+    vals = (fp, fm, fp2, fm2) + ((f0,) if f0 is not None else ())
     if not all(math.isfinite(v) for v in vals) or not math.isfinite(delta):
         return Deriv(float("nan"), float("inf"), float("inf"), h, False)
     d1 = (fp - fm) / (2.0 * h)
     d2 = (fp2 - fm2) / h
     r = (4.0 * d2 - d1) / 3.0
-    return Deriv(r, abs(r - d2), 3.0 * delta / h, h, True)
+    d4 = abs(fm - 4.0 * fm2 + 6.0 * f0 - 4.0 * fp2 + fp) if f0 is not None else 0.0
+    return Deriv(r, abs(r - d2), 3.0 * max(delta, d4 / 4.0) / h, h, True, d4)
 
 
-def richardson(phi: Callable[[float], float], h: float, delta: float = 0.0) -> Deriv:
-    return richardson_from_values(phi(h), phi(-h), phi(0.5 * h), phi(-0.5 * h), h, delta)
+def richardson(phi: Callable[[float], float], h: float, delta: float = 0.0, f0: Optional[float] = None) -> Deriv:
+    return richardson_from_values(phi(h), phi(-h), phi(0.5 * h), phi(-0.5 * h), h, delta, f0)
+
+
+def _acceptable(d: Deriv, prev: Sequence[Deriv], tol_of) -> bool:
+    """Own error estimate within the acceptable error, and inside the error bar of every estimate
+    already computed with another step size (each error bar contains the truth, so an estimate
+    outside one of them is wrong however self-consistent it looks — e.g. all its points on one
+    step of a quantised function)."""
+    if not d.finite or not (d.err <= tol_of(d.value)):
+        return False
+    return all(abs(d.value - p.value) <= p.err for p in prev if p.finite)
 
 
 def pick(derivs: Sequence[Deriv], tol_of: Callable[[float], float]) -> Deriv:
-    """First trustworthy estimate in the given order, else the one with the smallest error
-    estimate. ``tol_of(estimate)`` is the tolerance that applies to a derivative of that size."""
+    """First trustworthy estimate in the given order (``trusted=True``), else the one with the
+    smallest error estimate (``trusted=False``). ``tol_of(estimate)`` is the error that is
+    acceptable for a derivative of that size."""
     best: Optional[Deriv] = None
+    prev = []
     for d in derivs:
-        if d.finite and d.err <= tol_of(d.value):
+        if _acceptable(d, prev, tol_of):
+            d.trusted = True
             return d
+        prev.append(d)
         if best is None or d.err < best.err:
             best = d
+    if best is not None:
+        best.trusted = False
     return best
 
 
-def best_of_ladder(phi, steps: Sequence[float], delta: float, tol_of) -> Deriv:
-    """Lazy version of :func:`pick`: evaluates a step size only if the previous ones were not
+def best_of_ladder(phi, steps: Sequence[float], delta: float, tol_of, f0: Optional[float] = None) -> Deriv:
+    """Lazy version of :func:`pick`: a step size is evaluated only if the previous ones were not
     trustworthy."""
     best: Optional[Deriv] = None
+    prev = []
     for h in steps:
-        d = richardson(phi, h, delta)
-        if d.finite and d.err <= tol_of(d.value):
+        d = richardson(phi, h, delta, f0)
+        if _acceptable(d, prev, tol_of):
+            d.trusted = True
             return d
+        prev.append(d)
         if best is None or d.err < best.err:
             best = d
+    if best is not None:
+        best.trusted = False
     return best
 
 
